@@ -347,6 +347,64 @@ pub fn check_case(focus: &str, case: &CoverCase, col: &Collector) -> CheckResult
     Ok(())
 }
 
+
+// ------------------------------------------------------------------ oracle self-check
+
+/// The two oracles of the harness — the name-level cover predicate used here and the
+/// rights/revision-level reference model used by the history checks — are written independently.
+/// Before anything is concluded they are compared with each other on generated structures and
+/// policies (no code under test involved). A disagreement is a harness defect (exit 2), never a verdict.
+fn oracle_self_check(ctx: &Ctx, col: &Collector) -> bool {
+    use crate::model::{opens, MEnc, MMsk, MStructure};
+    use proptest::strategy::ValueTree;
+    let mut runner = crate::runner::new_runner(ctx.seed, 4242);
+    let strat = (struct_spec(4, 4, 200, true), proptest::collection::vec(policy_spec(3, 3, 2), 1..4), proptest::collection::vec(policy_spec(3, 3, 2), 1..4));
+    for _ in 0..400 {
+        let Ok(tree) = strat.new_tree(&mut runner) else { continue };
+        let (spec, users, encs) = tree.current();
+        let mut st = MStructure::default();
+        let mut uid = 0;
+        for d in &spec.dims {
+            st.add_dim(&d.name, d.hier);
+        }
+        for (d, a, h, after) in spec.insertion_plan() {
+            st.add_attr(&d, &a, h, after.as_deref(), uid);
+            uid += 1;
+        }
+        // the documented insertion rule must reproduce the rank order of the spec
+        for d in &spec.dims {
+            let got: Vec<&str> = st.dim(&d.name).unwrap().attrs.iter().map(|a| a.name.as_str()).collect();
+            let want: Vec<&str> = d.attrs.iter().map(|a| a.0.as_str()).collect();
+            if d.hier && got != want {
+                col.note(format!("generator unhealthy: oracle self-check failed: insertion plan gives {got:?}, spec says {want:?}"));
+                return false;
+            }
+        }
+        let mut msk = MMsk { structure: st, ..Default::default() };
+        let mut rev = 0;
+        msk.update(&mut rev);
+        let mpk = msk.mpk();
+        let view = view_of(&spec);
+        for (i, u) in users.iter().enumerate() {
+            let udnf = u.resolve(&view).dnf();
+            let Ok(k) = msk.keygen(&udnf, i, String::new()) else { continue };
+            for e in &encs {
+                let ednf = e.resolve(&view).dnf();
+                let Ok((targets, hybrid)) = mpk.encaps(&ednf) else { continue };
+                let m = MEnc { targets, hybrid, policy: String::new(), mpk_index: 0 };
+                let a = opens(&k, &m);
+                let b = policy_covers(&spec, &udnf, &ednf);
+                col.class("oracle-self-check:pairs");
+                if a != b {
+                    col.note(format!("generator unhealthy: oracle self-check failed: rights-level model says {a}, cover predicate says {b} for user {udnf:?} enc {ednf:?} on {}", spec.shape()));
+                    return false;
+                }
+            }
+        }
+    }
+    true
+}
+
 // ------------------------------------------------------------------ exhaustive tables
 
 fn fixed_structures() -> Vec<StructSpec> {
@@ -500,6 +558,9 @@ fn exhaustive(ctx: &Ctx, focus: &str, col: &Collector) {
 
 pub fn run(ctx: &Ctx, col: &Collector) -> Meta {
     let focus = ctx.id.clone();
+    if !oracle_self_check(ctx, col) {
+        return Meta { level: "exploration", rule: "oracle self-check failed".into(), exhaustive: false, assumptions: vec![] };
+    }
     exhaustive(ctx, &focus, col);
     // one fixed large structure (630 rights, names longer than 127 bytes)
     {
